@@ -125,6 +125,14 @@ def job_query(ctx, mode, what, fmt, reps, iv, prep="ord", samezone=True, window=
                     ("strictly later than p", ir > ip),
                     ("the earliest such member", z3.And([z3.Or(m <= ip, m >= ir) for m in ms])),
                     ("valid point", C.m_valid_point(mode, res, C.rep_of(res), a24))]
+        if fmt == 4:
+            # unbounded duration/end series: the members are end - k * interval, k >= 0
+            if res is None:
+                return [("None only when no member is later than p (p at or after the end)", ip >= ia)]
+            ir = L(C.m_instant(mode, res, C.rep_of(res)))
+            return [("result is a member", z3.And(ir <= ia, (ia - ir) % Ls == 0)), ("strictly later than p", ir > ip),
+                    ("the earliest such member", ir - Ls <= ip),
+                    ("valid point", C.m_valid_point(mode, res, C.rep_of(res), False))]
         if res is None:
             return [("an unbounded start-anchored series always has a later member", False)]
         ir = L(C.m_instant(mode, res, C.rep_of(res)))
@@ -231,7 +239,7 @@ def job_neighbours(ctx, mode, fmt, reps, iv, ranges=None, nominal=False, rep=Non
                    bounds={"interval": iv, "repetitions": reps}, sample_every=100)
 
 
-def job_first_after_nominal(ctx, mode, iv, reps=None, ranges=None, k=6):
+def job_first_after_nominal(ctx, mode, iv, reps=None, ranges=None, k=6, fmt=3):
     """get_first_after with a month/year interval: the earliest member (taken
     from the real iterator) strictly later than the probe"""
     data = ctx.data
@@ -249,8 +257,9 @@ def job_first_after_nominal(ctx, mode, iv, reps=None, ranges=None, k=6):
     def body(i):
         a = i["a"]
         d = data.Duration(**kw)
-        r = build(data, 3, reps, a, d)
-        probe = (a + data.Duration(years=i["yy"], months=i["mm"])) + data.Duration(days=i["dd"], hours=i["hh"])
+        r = build(data, fmt, reps, a, d)
+        sg = -1 if fmt == 4 else 1          # a duration/end series runs backwards from its anchor
+        probe = (a + data.Duration(years=sg * i["yy"], months=sg * i["mm"])) + data.Duration(days=i["dd"], hours=i["hh"])
         return take(r, k), probe, r.get_first_after(probe)
 
     def post(i, out):
@@ -260,19 +269,21 @@ def job_first_after_nominal(ctx, mode, iv, reps=None, ranges=None, k=6):
         ip = L(C.m_instant(mode, probe, "cal"))
         ms = [L(C.m_instant(mode, x, "cal")) for x in pts]
         if res is None:
-            if reps is None:
+            if reps is None and fmt != 4:
                 return [("an unbounded series always has a later member", False)]
             return [("None only when no member is later than p", z3.And([m <= ip for m in ms]))]
         ir = L(C.m_instant(mode, res, C.rep_of(res)))
         inwin = ip < ms[-1] if reps is None else z3.BoolVal(True)     # the probe lies before the last sampled member
+        if fmt == 4 and reps is None:
+            inwin = ip >= ms[-1]                                     # ... not before the earliest sampled member
         return [("result is the earliest member strictly later than p",
                  z3.Implies(inwin, z3.And(z3.Or([ir == m for m in ms]), ir > ip, z3.And([z3.Or(m <= ip, m >= ir) for m in ms]))))]
 
     def case_of(v, i):
         return {"check": "first_after_nominal", "mode": mode, "iv": iv, "reps": reps, "a": C.point_case(v, "", "cal"),
-                "dd": v["dd"], "hh": v["hh"], "mm": v["mm"], "yy": v["yy"], "k": k}
+                "dd": v["dd"], "hh": v["hh"], "mm": v["mm"], "yy": v["yy"], "k": k, "fmt": fmt}
 
-    return sym_run("first_after_nominal[%s,%s,R%s,%s]" % (mode, iv, reps, ranges), make, pre, body, post, case_of, ranges=ranges,
+    return sym_run("first_after_nominal[%s,%s,R%s,%s,fmt%d]" % (mode, iv, reps, ranges, fmt), make, pre, body, post, case_of, ranges=ranges,
                    scenarios=lambda i: {"first_after nominal": True, "probe before the nominal series": conc(i["dd"]) < 0},
                    bounds={"interval": iv, "repetitions": reps, "probe": "anchor + (-1..5 months | 0..3 years -1..1 months) + (-2..2 days, -1..1 h)"}, sample_every=100)
 
@@ -287,12 +298,17 @@ def replay(case, M):
         if what == "first_after_nominal":
             d = data.Duration(**NOMINAL[case["iv"]])
             a = C.build_point(data, case["a"])
-            r = build(data, 3, case["reps"], a, d)
-            probe = (a + data.Duration(years=case.get("yy", 0), months=case["mm"])) + data.Duration(days=case["dd"], hours=case["hh"])
-            got = r.get_first_after(probe)
+            fmt = case.get("fmt", 3)
+            r = build(data, fmt, case["reps"], a, d)
+            sg = -1 if fmt == 4 else 1
+            probe = (a + data.Duration(years=sg * case.get("yy", 0), months=sg * case["mm"])) + data.Duration(days=case["dd"], hours=case["hh"])
+            try:
+                got = r.get_first_after(probe)
+            except Exception as exc:
+                return True, "%s .get_first_after(%s) raised %s: %s" % (r, probe, type(exc).__name__, exc)
             ip = C.py_instant(mode, probe)
             later = [x for x in take(r, 400 if case["reps"] is None else case["reps"]) if C.py_instant(mode, x) > ip]
-            exp = later[0] if later else None
+            exp = min(later, key=lambda x: C.py_instant(mode, x)) if later else None
             bad = (got is None) != (exp is None) or (got is not None and C.py_instant(mode, got) != C.py_instant(mode, exp))
             return bad, "%s .get_first_after(%s) = %s, the earliest later member is %s" % (r, probe, got, exp)
         nominal = case.get("nominal", False)
@@ -333,11 +349,16 @@ def replay(case, M):
             else:
                 exp = ip in mem
             return bool(got) != bool(exp), "%s .get_is_valid(%s) = %s, iteration says %s" % (r, C.describe_point(p), got, exp)
-        got = r.get_first_after(p)
+        try:
+            got = r.get_first_after(p)
+        except Exception as exc:
+            return True, "%s .get_first_after(%s) raised %s: %s" % (r, C.describe_point(p), type(exc).__name__, exc)
         mem = take(r, 400 if reps is None else reps)
         later = [x for x in mem if C.py_instant(mode, x) > ip]
         exp = min(later, key=lambda x: C.py_instant(mode, x)) if later else None
-        if reps is None and not later:
+        if reps is None and fmt == 4 and len(later) == len(mem):
+            return False, "probe before the sampled prefix of the backwards series"
+        if reps is None and fmt != 4 and not later:
             return False, "probe beyond the sampled prefix"
         bad = (got is None) != (exp is None) or (got is not None and C.py_instant(mode, got) != C.py_instant(mode, exp))
         return bad, "%s .get_first_after(%s) = %s, expected %s" % (r, C.describe_point(p), got, exp)
@@ -360,8 +381,7 @@ def jobs(tier):
                         if iv in ("PT1S", "PT90M", "PT1H"):
                             rg.update({"h": (22, 23), "hp": (21, 23)} if iv != "PT1S" else {"h": (23, 23), "mi": (59, 59), "hp": (23, 23), "mip": (59, 59)})
                         J.append(("job_query", dict(mode=mode, what="valid", fmt=fmt, reps=reps, iv=iv, window=win, ranges=rg)))
-                        if fmt != 4:
-                            J.append(("job_query", dict(mode=mode, what="first_after", fmt=fmt, reps=reps, iv=iv, window=win, ranges=rg)))
+                        J.append(("job_query", dict(mode=mode, what="first_after", fmt=fmt, reps=reps, iv=iv, window=win, ranges=rg)))
         # anchors written as 24:00 and probes written in a decimal precision form
         for fmt, reps in ((3, 3), (4, 3), (3, None)):
             J.append(("job_query", dict(mode=mode, what="valid", fmt=fmt, reps=reps, iv="P1D", window=(-2, 4), ranges={"DOY": (360, 361)}, a24=True)))
@@ -399,6 +419,8 @@ def jobs(tier):
             for reps in (None, 3):
                 for m, dw in (((1, 3), (28, 31)), ((1, 3), (1, 2)), ((10, 12), (29, 31))) if mode == "gregorian" or th else (((1, 2), (28, 31)),):
                     J.append(("job_first_after_nominal", dict(mode=mode, iv=iv, reps=reps, ranges={"M": m, "D": dw, "tzh": (0, 0), "tzm": (0, 0)})))
+                    if reps is None and (th or dw == (28, 31)):
+                        J.append(("job_first_after_nominal", dict(mode=mode, iv=iv, reps=None, fmt=4, ranges={"M": m, "D": dw, "tzh": (0, 0), "tzm": (0, 0)})))
     return J
 
 
@@ -416,7 +438,7 @@ INFO = {
                          "probes": "same year and zone as the anchor, day offset window around the series, any whole-second time; plus one job each with the probe in another whole-hour zone, in calendar and in week representation; get_is_valid also with the anchor written as 24:00 (P1D, PT36H) and with the probe in the hh,5 / hh:mm,25 decimal forms (P1D, PT90M)",
                          "repetitions": "start/duration 1,2,3,unbounded; start/second 3; duration/end 3 and unbounded", "mode": "gregorian"},
                "thorough": {"modes": "all 4", "anchors": "both windows for every interval"}},
-    "outside": ["symbolic interval lengths", "get_first_after with month/year intervals other than P1M / P1Y or probes more than 5 months (P1M) / 3 years (P1Y) after the anchor", "fractional-second probes",
+    "outside": ["symbolic interval lengths", "get_first_after with month/year intervals other than P1M / P1Y or probes more than 5 months (P1M) / 3 years (P1Y) away from the anchor (start/duration series forwards, unbounded duration/end series backwards)", "fractional-second probes",
                 "probes more than the stated window away from the series"],
     "assumptions": ["get_days_in_year_range runs as its closed form (C03)"],
 }
